@@ -1,6 +1,31 @@
 """Table behind MANIFEST.json (tools/mkmanifest.py writes the file)."""
 
 CHECKS = {
+    'C01': {
+        'technique': 'static analysis: writer/reader table agreement (DataType <-> HDF5 file/memory type, decoder, element size, to_data_type<T>) by '
+                     'decision-table extraction; abstract interpretation (all abstract paths) of DataArray::ioRead/ioWrite/appendData and of the '
+                     'backend read/write pair; argument-role rule at the hyperslab selection; creation-parameter rule',
+        'text': 'Decides structural necessary conditions of C01: every stored element type maps to a file type and a memory type of the same '
+                'class/size/sign which decode to the same DataType and whose size equals data_type_to_size and the C type of to_data_type<T>; '
+                'offset/count keep their roles down to H5Sselect_hyperslab(start, count); backend read and write select the same region with the '
+                'same memory type and marshal strings symmetrically (copy out before vlen reclaim); appendData writes at the old extent after '
+                'growing by the count on the axis only; calibration is applied only on read, exactly when coefficients or an origin are stored, as '
+                'read(Double) -> polynomial(input - origin) -> convert(Double -> requested); the data set is created chunked with unlimited maximum '
+                'extent so growth/shrink is possible. Value equality of what libhdf5 returns (conversion of particular values, fill of grown '
+                'regions) is NOT decided.',
+    },
+    'C02': {
+        'technique': 'static analysis: storage-key agreement rule per backend field (setter / clearing overload / getter / creating constructor / '
+                     'header), def-use rule value-from-parameter, handle-only member rule, cached-handle-versus-unlink rule (must-pass-through on '
+                     'optGroup::operator() combined with a who-unlinks query over the class hierarchy), enum<->string codec evaluation, '
+                     'dimension-opener dispatch table, close/flush typestate rule, error-result consumption rule',
+        'text': 'Decides structural necessary conditions of C02 (partial claim): no persisted field is written under a key/store kind other than the '
+                'one it is read and cleared under; stored values derive from the setter parameter; backend classes own only handles (no value '
+                'cache); the only handle cache either re-looks the container up or no cached container is ever unlinked; links are hard links; '
+                'LinkType/DimensionType/DataType codecs are bijective on what is stored and the dimension opener builds the class of the stored '
+                'kind; close releases every id then the file; no mutating HDF5 result is dropped. Equality of the whole entity tree over all '
+                'operation histories (a model comparison over runtime states) is NOT decided.',
+    },
     'C03': {
         'technique': 'static analysis: dominance-based validate-before-create rule over clang AST/CFG facts (custom checker)',
         'text': 'Decides a structural necessary condition of C03 on every path of every front-end create entry point: the '
